@@ -14,7 +14,7 @@
 (*   numpy.fft.fftshift  = roll by  N div 2,  ifftshift = roll by -(N div 2)*)
 (*   roll(s): y[j] = x[(j - s) mod N]                                       *)
 (***************************************************************************)
-EXTENDS Integers, Sequences, FiniteSets, TLC, Json
+EXTENDS FourierOps, TLC, Json
 
 CONSTANTS MaxLen,      \* lengths 1..MaxLen
           ClaimReal,   \* TRUE: also require the inverse-pair law of the real-input variants (known not to hold)
@@ -22,38 +22,6 @@ CONSTANTS MaxLen,      \* lengths 1..MaxLen
 
 VARIABLES pc, cfg, tab
 vars == <<pc, cfg, tab>>
-
-Half(N) == N \div 2
-
-\* ---- the pipelines, as written in the code (1-D factor along one transformed axis) -----------------
-\* [inroll, fwd, outroll]: fwd = forward DFT (zeta^(+jk) with zeta = exp(-2 pi i/N)), otherwise the inverse DFT.
-\* The real-input variants are described below by their length and scale arithmetic only.
-Pipe(fn, N) ==
-    CASE fn = "ft"      -> [inroll |-> -Half(N), fwd |-> TRUE,  outroll |-> Half(N),  real |-> FALSE]   \* fftshift(fft(ifftshift(x)))
-      [] fn = "ift"     -> [inroll |-> -Half(N), fwd |-> FALSE, outroll |-> Half(N),  real |-> FALSE]   \* fftshift(ifft(ifftshift(X)))
-      [] fn = "ps_ift2" -> [inroll |-> Half(N),  fwd |-> FALSE, outroll |-> -Half(N), real |-> FALSE]   \* ifftshift(ifft2(fftshift(G)))
-\* scalars as <<numerator, denominator>> in the symbols: delta = dn/dd, delta_f = 1/(N delta)
-\*   ft: delta        ift: N * delta_f  = 1/delta        (per transformed axis)
-
-\* exponent (of zeta_N = exp(-2 pi i/N)) of the matrix entry Op[j, i] for a complex pipeline of length N
-Exp(p, N, j, i) == LET k == (j - p.outroll) % N          \* frequency bin that lands on output index j
-                       m == (i + p.inroll) % N           \* position of input sample i after the input roll
-                   IN  IF p.fwd THEN (k * m) % N ELSE (N - ((k * m) % N)) % N
-
-Table(fn, N) == [j \in 0..(N-1) |-> [i \in 0..(N-1) |-> Exp(Pipe(fn, N), N, j, i)]]
-
-\* ---- exact tests on exponent tables -------------------------------------------------------------------
-\* sum_k zeta^(A[j][k] + B[k][i]) : all exponents equal e  -> N zeta^e ;  uniform over a coset of a non-trivial subgroup -> 0
-Exps(A, B, N, j, i) == [k \in 0..(N-1) |-> (A[j][k] + B[k][i]) % N]
-AllEqual(s, N, e) == \A k \in 0..(N-1) : s[k] = e
-\* the sequence is an arithmetic progression a*k + b with a # 0 mod N  => the sum of the roots vanishes
-Vanishes(s, N) == N > 1 /\ \E a \in 1..(N-1) : \A k \in 0..(N-1) : s[k] = (a * k + s[0]) % N
-IsIdentity(A, B, N) == \A j, i \in 0..(N-1) :
-                          IF j = i THEN AllEqual(Exps(A, B, N, j, i), N, 0) ELSE Vanishes(Exps(A, B, N, j, i), N)
-\* rows of one table are orthogonal: sum_i zeta^(A[j][i] - A[j2][i]) = N delta_jj2   (scaled unitary => Parseval)
-RowsOrthogonal(A, N) == \A j, j2 \in 0..(N-1) :
-                          LET s == [i \in 0..(N-1) |-> (A[j][i] - A[j2][i]) % N]
-                          IN  IF j = j2 THEN AllEqual(s, N, 0) ELSE Vanishes(s, N)
 
 -----------------------------------------------------------------------------
 Fns == {"ft", "ift", "ps_ift2"}
